@@ -69,3 +69,11 @@ Print Assumptions C01_block_is_standalone_3d.
 Print Assumptions C01_block_is_standalone_2d.
 Print Assumptions C01_history.
 Print Assumptions C01_premises_met.
+
+(** the premises [world_ok] / [world_no_random] of the theorems above are also met by subducting plates and faults
+    (SlabFeature.v): every painted block keeps its width, and without random grains models no draw is consumed *)
+From WB Require Import SlabFeature SlabFeatureProofs.
+Theorem C01_premises_met_by_slabs_and_faults : forall (F : Type) (NF : Num F) g tape (lf : @line_feature F),
+  paint_len (line_to_feature g tape lf) /\ (line_nonrandom lf -> no_random (line_to_feature g tape lf)).
+Proof. intros F NF g tape lf. split; [apply line_paint_len | apply line_no_random]. Qed.
+Print Assumptions C01_premises_met_by_slabs_and_faults.
